@@ -16,19 +16,19 @@ open LyModel LyModel.Utf8 LyModel.Generated
 
 /-- `LY_ERR` values the layer returns: `LY_EVALID`, `LY_EINVAL` (element depth), `LY_EINT` (`LOGINT`) -/
 inductive YErr | invalid | einval | eint
-  deriving Repr, DecidableEq, BEq
+  deriving Repr, DecidableEq
 
 def YErr.name : YErr → String
   | .invalid => "Valid" | .einval => "Inval" | .eint => "Int"
 
 inductive XStatus | element | elemClose | attribute | elemContent | attrContent | fin
-  deriving Repr, DecidableEq, BEq
+  deriving Repr, DecidableEq
 
 structure XNs where
   pfx : Option Bytes
   uri : Bytes
   depth : Nat
-  deriving Repr, DecidableEq, BEq
+  deriving Repr, DecidableEq
 
 /-- `struct lyxml_ctx` -/
 structure XCtx where
@@ -44,7 +44,7 @@ structure XCtx where
   name : Bytes
   value : Bytes
   wsOnly : Bool
-  deriving Repr, DecidableEq, BEq
+  deriving Repr, DecidableEq
 
 def inRanges (rs : List (Nat × Nat)) (c : Nat) : Bool := rs.any fun r => r.1 ≤ c && c ≤ r.2
 
